@@ -734,6 +734,15 @@ def main():
                         ck.violation('C18:raise:number-of-%s-digits' % ('more-than-4300' if ln > 4300 else 'up-to-4300'),
                                      'parser raised %s on the form %r with a %d-digit number' % (tr[1][:120], f, ln), {'part': 'digits', 'raw_lines': lines})
                     else:
+                        # whatever its size, the number means what it says: a test number other than the next one leaves a gap or exceeds
+                        # the plan, a plan count other than the number of tests is a mismatch - each of them an error event
+                        n_is_one = ln == 1 and dg == '1'
+                        must_err = (not f.startswith('TAP version')) and not (n_is_one and f in ('ok %s', 'not ok %s', 'ok %s - d', 'ok %s # SKIP', 'ok 1\n1..%s'))
+                        if f == '1..2\nok %s':
+                            must_err = True        # two tests planned, at most one seen
+                        if must_err and not any(e[0] == 'error' for seg in tr for e in seg):
+                            ck.violation('C18:digits:no-error-event', 'form %r with the %d-digit number %s...: no error event although the number leaves a gap / exceeds the plan / contradicts the count'
+                                         % (f, ln, (dg * ln)[:12]), {'part': 'digits', 'raw_lines': lines})
                         for rc in (0, 1):
                             v, bad = check_verdict(lines, rc, tr)
                             if v and v[0] == 'C18:verdict:raise':
